@@ -1,7 +1,9 @@
 (* OCaml side of the C01 MathML correspondence.  Glue only: parsing of the case format, printing of trees as
    XML text, one line per case.  All property logic (val_math, ana, the enumerator) is the extracted model.
 
-   driver eval <cases>           each line: a tree in prefix form (see parse below) -> "val=<rules|-> ana=<ok|site>"
+   driver eval <cases>           each line: [V <n> (<name> <initial_value>)*] <tree in prefix form (see parse below)>
+                                 -> "val=<rules|-> ana=<ok|must:site|may:site> pow=<none|invalid_argument|out_of_range>"
+                                 (without the V prefix the environment is MathDefs.std_vars, no initial values)
    driver enum <depth> <maxlen> <mod>
                                  enumerates MathDefs.trees depth maxlen in both contexts; prints
                                  "A <hex of xml body> val=- ana=..."   for every tree the model's validator accepts
@@ -22,8 +24,8 @@ let hexencode s =
 
 (* prefix form:  E <ns> <name> <nattrs> (<ns> <name> <value>)* <nkids> <kid>*  |  T <text>  |  C <text>
    every string hex-encoded, "-" for the empty string *)
-let parse (toks : string array) : xml =
-  let pos = ref 0 in
+let parse_from (toks : string array) (start : int) : xml =
+  let pos = ref start in
   let nxt () = let t = toks.(!pos) in incr pos; t in
   let str () = explode (hexdecode (nxt ())) in
   let rec node () =
@@ -41,6 +43,8 @@ let parse (toks : string array) : xml =
     | t -> failwith ("bad token " ^ t)
   in
   node ()
+
+let parse toks = parse_from toks 0
 
 let escape s =
   let b = Buffer.create (String.length s) in
@@ -93,9 +97,20 @@ let () =
        while true do
          let line = input_line ic in
          let toks = Array.of_list (List.filter (fun t -> t <> "") (String.split_on_char ' ' line)) in
-         let root = parse toks in
-         let (vs, as_, _, _) = verdict root in
-         Printf.printf "val=%s ana=%s\n" vs as_
+         let (vars, ivs, start) =
+           if toks.(0) = "V" then begin
+             let n = int_of_string toks.(1) in
+             let l = List.init n (fun i -> (explode (hexdecode toks.(2 + 2 * i)), explode (hexdecode toks.(3 + 2 * i)))) in
+             (List.map fst l, l, 2 + 2 * n)
+           end else (std_vars, [], 0) in
+         let root = parse_from toks start in
+         let v = val_math_env vars std_units root in
+         let vs = if v = [] then "-" else String.concat "," (List.map (fun r -> implode (rule_name r)) v) in
+         let as_ = match ana_math_env vars root with
+           | Ok _ -> "ok"
+           | Crash s -> (if site_certain s then "must:" else "may:") ^ implode (site_name s) in
+         let pw = match pow_math_env vars ivs root with None -> "none" | Some r -> implode (stod_result_name r) in
+         Printf.printf "val=%s ana=%s pow=%s\n" vs as_ pw
        done
      with End_of_file -> ());
     close_in ic
